@@ -991,5 +991,73 @@ def A1w_who_may_mutate(repo, clause, roots=("replace_pattern_in_structure", "fin
             obs.append(Ob("A1w", clause, fn, fn.node, not muts,
                           "function %s (reachable from the read-only entry points) mutates parameter(s) %s" % (fn.qualname, sorted(muts) or "none"),
                           construct="def %s" % fn.name, slot="function", positive=True))
-    floor("A1w", "functions reachable from the read-only entry points", len(obs), 15)
+    floor("A1w", "functions reachable from the entry points", len(obs), 15 if len(roots) >= 5 else 5)
+    return obs
+
+
+def A21_no_mutable_default_mutation(repo, clause, funcs=None):
+    """A parameter whose default is a mutable literal ([] / {} / set()) is shared across calls; mutating it leaks state
+    from one call into the next (and, for maps handed in by the caller, into the caller's object)."""
+    eff = repo.effects
+    obs = []
+    n = 0
+    for fn in repo.all_fns():
+        if funcs is not None and fn.qualname not in funcs:
+            continue
+        for p, d in fn.param_defaults().items():
+            if isinstance(d, (ast.List, ast.Dict, ast.Set)) or (isinstance(d, ast.Call) and call_name(d) in ("list", "dict", "set", "OrderedSet")):
+                n += 1
+                bad = p in eff.mut[fn]
+                obs.append(Ob("A21", clause, fn, fn.node, not bad,
+                              "parameter `%s` of %s has the mutable default %s and is %s by the function" % (
+                                  p, fn.qualname, ast.unparse(d), "MUTATED in place (values written by one call are seen by later calls / by the caller)" if bad else "only read"),
+                              construct="def %s(..., %s=%s)" % (fn.name, p, ast.unparse(d)), slot="mutable-default:%s" % p, positive=True))
+    floor("A21", "parameters with mutable defaults", n, 1 if funcs else 2)
+    return obs
+
+
+def A22_no_module_state(repo, clause, modules=("mofun.atoms", "mofun.helpers", "mofun.mofun", "mofun.detect_bonds", "mofun.rough_uff")):
+    """Library functions keep no hidden module-level state: no function writes a module-level name or mutates a
+    module-level container (memo tables make a result depend on earlier calls with other options)."""
+    obs = []
+    for mname in modules:
+        m = repo.module(mname)
+        module_names = set()
+        for st in m.tree.body:
+            if isinstance(st, ast.Assign):
+                for t in st.targets:
+                    for x in ast.walk(t):
+                        if isinstance(x, ast.Name):
+                            module_names.add(x.id)
+        bad = []
+        for (mm, q), fn in repo.fns.items():
+            if mm != mname:
+                continue
+            local_stores = {x.id for x in fn.all_nodes() if isinstance(x, ast.Name) and isinstance(x.ctx, ast.Store)} | set(fn.params)
+            outer = fn.outer
+            while outer is not None:
+                local_stores |= {x.id for x in outer.all_nodes() if isinstance(x, ast.Name) and isinstance(x.ctx, ast.Store)} | set(outer.params)
+                outer = outer.outer
+            globals_decl = {nm for x in fn.own_nodes() if isinstance(x, ast.Global) for nm in x.names}
+            for n_ in fn.own_nodes():
+                tgt = None
+                if isinstance(n_, (ast.Assign, ast.AugAssign)):
+                    ts = n_.targets if isinstance(n_, ast.Assign) else [n_.target]
+                    for t in ts:
+                        b = t
+                        while isinstance(b, (ast.Subscript, ast.Attribute)):
+                            b = b.value
+                        if isinstance(b, ast.Name) and (b.id in globals_decl or (b is not t and b.id in module_names and b.id not in local_stores)):
+                            tgt = b.id
+                elif isinstance(n_, ast.Call) and isinstance(n_.func, ast.Attribute) and n_.func.attr in ("append", "update", "setdefault", "add", "pop", "clear", "extend", "__setitem__") \
+                        and isinstance(n_.func.value, ast.Name) and n_.func.value.id in module_names and n_.func.value.id not in local_stores:
+                    tgt = n_.func.value.id
+                if tgt is not None:
+                    bad.append((fn, n_, tgt))
+        from verif_sa.core import FileObj
+        fo = FileObj(m.relpath, mname)
+        obs.append(Ob("A22", clause, bad[0][0] if bad else fo, bad[0][1] if bad else m.tree.body[0], not bad,
+                      "no function of %s writes module-level state%s" % (mname, "" if not bad else
+                                                                         ": %s writes `%s` (results then depend on earlier calls)" % (bad[0][0].qualname, bad[0][2])),
+                      construct="module %s" % mname if not bad else None, slot="module-state:%s" % mname, positive=True))
     return obs
